@@ -155,6 +155,22 @@ func c18Run(w *W) {
 			mustSet(w, c, mangos.OptionSubscribe, "")
 		}
 	}
+	// once a context has its deadline (its own or inherited at creation), the
+	// socket's is changed to something else: the context keeps what it has
+	decoy := useCtx && w.Choose(simrt.SShape, 2) == 0
+	decoySock := func(name string, cur time.Duration) {
+		if !decoy {
+			return
+		}
+		other := cur + 13*time.Millisecond
+		if cur == 0 {
+			other = 100 * time.Millisecond
+		}
+		if s.SetOption(name, other) == nil {
+			w.SetShape("socket_deadline_changed_afterwards", other.String())
+			w.Probe("socket-deadline-changed-after-context-had-its-own")
+		}
+	}
 	leave := func() {
 		if peerMode == "leaving" && peer != nil {
 			w.Op("peer leaves mid-call")
@@ -179,6 +195,7 @@ func c18Run(w *W) {
 			w.Probe("deadline-not-accepted")
 			return
 		}
+		decoySock(mangos.OptionRecvDeadline, dd)
 		// patterns that need a request/survey before Recv
 		switch kind {
 		case "req":
@@ -351,6 +368,8 @@ func c18Run(w *W) {
 			if mode == "send-deadline" {
 				return
 			}
+		} else if mode == "send-deadline" {
+			decoySock(mangos.OptionSendDeadline, d)
 		}
 		// rep/respondent can only send after receiving a request
 		if (kind == "rep" || kind == "respondent") && peer != nil && peer.Open() {
@@ -363,6 +382,9 @@ func c18Run(w *W) {
 			}
 		}
 		blockedOnce := false
+		// (set up front: an option call made while a Send is blocked is itself
+		// one of the calls that must not wait - judged by the Recv below)
+		recvBeside := kind != "req" && canRecv(kind) && d >= time.Millisecond && mode == "send-deadline" && w.Choose(simrt.SProg, 2) == 0 && obj.SetOption(mangos.OptionRecvDeadline, d/4) == nil
 		// raw patterns whose Send wants a protocol header from the application
 		// (a message without one is dropped on the spot, which would decide
 		// nothing): the header an application would supply, for XREP /
@@ -431,6 +453,29 @@ func c18Run(w *W) {
 					if rc.Returned() {
 						w.Probe("recv-timed-out-beside-blocked-send")
 					}
+				}
+			}
+			if kind != "req" && canRecv(kind) && d >= time.Millisecond && mode == "send-deadline" && recvBeside {
+				// while the Send waits for room, another goroutine calls Recv on
+				// the same socket / context with a shorter deadline: a blocked
+				// Send must not make other calls wait for it (nothing is queued,
+				// so that Recv ends at its own deadline, or at once where the
+				// pattern has nothing to wait for)
+				during = func() {
+					leave()
+					rc := w.Do(kind+".Recv(beside the blocked Send)", func() (interface{}, error) { return obj.Recv() })
+					w.Sleep(d / 2)
+					w.Settle()
+					if !rc.Returned() {
+						w.WedgeCheck("C12")
+						w.Failf("C18/late", "%s: a Send was blocked behind a stalled peer (deadline %v); a Recv with deadline %v invoked beside it at %v is still pending at %v", kind, d, d/4, rc.InvTime, w.Now())
+						return
+					}
+					if rc.Err == mangos.ErrRecvTimeout && rc.RetTime != rc.InvTime+d/4 {
+						w.Failf("C18/late", "%s: a Recv with deadline %v invoked at %v beside a blocked Send timed out at %v", kind, d/4, rc.InvTime, rc.RetTime)
+						return
+					}
+					w.Probe("recv-beside-blocked-send-kept-its-own-deadline")
 				}
 			}
 			c, blocked := timedCall(w, fmt.Sprintf("%s.Send#%d", kind, i), d, wantTimeout, func() (interface{}, error) { return nil, send(body) }, during)
